@@ -144,7 +144,7 @@ class Ctx:
 
     def tlc(self, module, cfg=None, cfg_text=None, consts=None, mode="bfs", workers=None,
             depth=None, num=None, timeout=600, files=None, expect_violation=False,
-            coverage=False, extra=None, dirname="tla", heap="8g", dfs=False, count=True):
+            coverage=False, extra=None, dirname="tla", heap="4g", dfs=False, count=True):
         d = self.specdir(dirname)
         if files:
             for k, v in files.items():
